@@ -13,9 +13,11 @@ ETYPES = {"critical_path_operator": "op", "critical_path_dependency": "dep", "cr
           "critical_path_kernel_kernel_delay": "kk", "critical_path_sync_dependency": "sync"}
 
 
-def gen_cp_case(rng, nranks=1):
+def gen_cp_case(rng, nranks=None):
     sync_rate = rng.choice([0.0, 0.1, 0.2, 0.3])
     event_rate = rng.choice([0.0, 0.25, 0.4])
+    if nranks is None:
+        nranks = rng.choice([1, 1, 1, 2, 3])     # the other ranks of the job are loaded too; one of them is analysed
     focus = rng.random() < 0.15      # two host threads feeding the same streams around CUDA-event waits
     if focus:
         sync_rate, event_rate = 0.0, 0.4
